@@ -70,6 +70,12 @@ def trees(draw):
     budget = [12]
     top = draw(node(0, budget))
     top['cls'] = draw(st.sampled_from(['pure', 'nestable']))
+    if draw(st.integers(0, 4)) == 0:
+        # the tree is drawn, pruned, and drawn again
+        top['history'] = draw(st.lists(st.tuples(st.integers(0, 6),
+                                                 st.sampled_from(['bypass', 'keep']),
+                                                 st.integers(0, 255)),
+                                       min_size=1, max_size=2))
     return top
 
 
@@ -165,11 +171,56 @@ def expected_label(obj, spec):
     return text, False
 
 
+def adopt(obj, path, spec_of, registry):
+    """describe the LIVE tree (after surgery): same shape of records as build() makes"""
+    spec = dict(spec_of[id(obj)])
+    if spec['kind'] == 'sched':
+        members = list(obj.jobs)
+        index = {id(m): i for i, m in enumerate(members)}
+        spec['members'] = []
+        for i, m in enumerate(members):
+            spec['members'].append(adopt(m, '%s.%d' % (path, i), spec_of, registry))
+        spec['edges'] = [[index[id(r)], i] for i, m in enumerate(members)
+                         for r in m.required if id(r) in index]
+        spec['order'] = list(range(len(members)))
+    registry[path] = (obj, spec)
+    return spec
+
+
+def apply_history(case, top, registry, res):
+    """draw the tree, prune some scheduler with the surgery methods, return the registry of
+    the tree as it is now (the drawing made afterwards must describe THAT tree)"""
+    with quiet():
+        try:
+            top.dot_format()
+        except Exception:
+            pass
+    spec_of = {id(obj): spec for obj, spec in registry.values()}
+    scheds = [obj for path, (obj, spec) in sorted(registry.items()) if spec['kind'] == 'sched']
+    for pick, op, arg in case['history']:
+        sched = scheds[pick % len(scheds)]
+        members = sorted(sched.jobs, key=lambda j: j.v_id)
+        if not members:
+            continue
+        with quiet():
+            if op == 'bypass':
+                sched.bypass_and_remove(members[arg % len(members)])
+            else:
+                keep = [m for k, m in enumerate(members) if arg >> (k % 8) & 1]
+                sched.keep_only(keep)
+        res.label('history:draw-prune-redraw')
+    new_registry = {}
+    new_case = adopt(top, 'r', spec_of, new_registry)
+    return new_case, new_registry
+
+
 def evaluate(case):
     res = Result()
     registry = {}
     with quiet():
         top = build(case, 'r', registry, top=True)
+    if case.get('history'):
+        case, registry = apply_history(case, top, registry, res)
     on_edge = has_empty_on_edge(case)
     try:
         with quiet():
